@@ -57,6 +57,8 @@ def evaluate(ctx, drv, cases, optimized=False):
                                   'interval', 'strategy', 'max_steps')}
         if c.get('patches'):
             case['patches'] = c['patches']
+        if c.get('late'):
+            case['late'] = c['late']
         total = obs['total']
         ctx.case(key=json.dumps(case, sort_keys=True),
                  nontrivial=total >= 3 and (c['interval'] > 0 or any(d != 'ok' for d in c['disk']) or
